@@ -943,8 +943,10 @@ fn edge_case(ctx: &mut Ctx, idx: usize, files: &Files, forced: Option<usize>) {
     let first_adm = target.and_then(|s| s.cands.iter().find(|c| admissible(c)).cloned());
     let limit_m = first_adm.and_then(|c| c.4);
     let limit_d2 = first_adm.map(|c| c.1 as f64);
-    // the code compares distance_2 with the tolerance converted to metres
-    let limit_code = |u: &DistanceUnit| limit_d2.map(|x| DistanceUnit::Meters.convert(&Distance::new(x), u).as_f64());
+    // the code compares distance_2 with the tolerance converted to metres; a correct comparison would be with
+    // the great-circle distance converted into the tolerance unit: both limits are exercised
+    let limit_by_d2 = rng.chance(1, 2);
+    let limit_code = |u: &DistanceUnit| (if limit_by_d2 { limit_d2 } else { limit_m }).map(|x| DistanceUnit::Meters.convert(&Distance::new(x), u).as_f64());
     let (mut tol, tb) = gen_tolerance(&mut rng, limit_m, &limit_code);
     if let Some(k) = forced {
         tol = Some(match k {
